@@ -62,7 +62,7 @@ def main():
                                "no_failing_input": any("no-failing-input-found" in l for l in viol),
                                "summary": tail[-1] if tail else out[-300:]}
         finally:
-            sh("git -C /repo checkout -- .")
+            sh("git -C /repo checkout -- . && git -C /repo clean -fdq")
             rc, out = sh("git -C /repo status --short")
             assert out.strip() == "", out
     dst = f"/verif/seeded/{sid}"
